@@ -50,7 +50,8 @@ def run(tier, seed):
             if f & 0x40 and (f // 2 + ruv) % 2:
                 s.at_cred_id = b"some-other-credential"       # AT in an assertion: attested data follows - whose, is not a flag matter
             if f & 0x80:           # ED: "extension data follows" - any CBOR map, the empty one included
-                s.ext = (None, b"\xa0", b"\xa1\x68credBlob\x58\x20" + bytes(32), b"\xa1\x63uvm\x81\x83\x02\x04\x02")[(f // 4 + ruv) % 4]
+                # (incl. values in their shortest floating-point form, which the parser measures through a longer re-encoding)
+                s.ext = (None, b"\xa0", b"\xa1\x68credBlob\x58\x20" + bytes(32), b"\xa1\x63uvm\x81\x83\x02\x04\x02", b"\xa1\x65ratio\xf9\x3e\x00", b"\xa2\x61a\xfa\x3f\xc0\x00\x00\x61b\xf9\x7c\x00")[(f // 4 + ruv) % 6]
             pol, a = s.build()
             a.attachment = (None, "platform", "cross-platform")[(f // 2 + ruv) % 3]        # a client hint: no influence on any reported field
             exp = table_auth(f, ruv)
